@@ -336,8 +336,56 @@ RECURSION_PROGRAMS = {
 }
 
 
-def directed_programs(tier, r):
+NEST_KINDS = {
+    'for': ('for i%(d)d in [1]:', None), 'while': ('while c%(d)d:', 'c%(d)d = 0'), 'with': ('with CM():', None), 'try-finally': ('try:', ('finally:', 'n[0] += 1')),
+    'try-except': ('try:', ('except KeyError:', 'n[0] += 100')), 'if': ('if n:', None),
+}
+
+
+def nesting_programs(tier):
+    """blocks nested to depth d and actually executed: statically nested blocks, handlers entered inside handlers (`except E as e` keeps a hidden
+    finally block open), try/except/finally in try bodies - the VM's block stack has to hold them all."""
     out = []
+    pre = 'n = [0]\nclass CM:\n    def __enter__(self):\n        return self\n    def __exit__(self, a, b, c):\n        n[0] += 1\n        return False\n'
+    depths = (5, 10, 11, 12, 19, 20, 21, 25, 40) if tier == 'quick' else (5, 10, 11, 12, 15, 19, 20, 21, 22, 25, 30, 40, 60, 100)
+    for d in depths:
+        for kind, (hdr, extra) in NEST_KINDS.items():
+            lines = []
+            for k in range(d):
+                ind = '    ' * k
+                if kind == 'while':
+                    lines.append(ind + 'c%d = 1' % k)
+                lines.append(ind + hdr % {'d': k})
+                if kind == 'while':
+                    lines.append(ind + '    c%d = 0' % k)
+            lines.append('    ' * d + 'n[0] += 1000')
+            if isinstance(extra, tuple):
+                for k in range(d - 1, -1, -1):
+                    lines.append('    ' * k + extra[0])
+                    lines.append('    ' * k + '    ' + extra[1])
+            out.append({'id': 'nest-%s-%d' % (kind, d), 'src': pre + 'def f():\n' + ''.join('    ' + l + '\n' for l in lines) + '    print(n[0])\nf()\n', 'family': 'nesting', 'label': '%s depth %d' % (kind, d)})
+        # handlers entered inside handlers
+        for kind, asn in (('handler-in-handler', ''), ('named-handler-in-handler', ' as e%d')):
+            lines = []
+            for k in range(d):
+                ind = '    ' * (2 * k)
+                lines += [ind + 'try:', ind + '    raise KeyError(%d)' % k, ind + 'except KeyError%s:' % (asn % k if asn else '')]
+                lines.append(ind + '    n[0] += 1')
+            out.append({'id': 'nest-%s-%d' % (kind, d), 'src': pre + 'def f():\n' + ''.join('    ' + l + '\n' for l in lines) + '    print(n[0])\nf()\n', 'family': 'nesting', 'label': '%s depth %d' % (kind, d)})
+        # try/except/finally nested in try bodies, the innermost raises and every level handles + re-raises
+        lines = []
+        for k in range(d):
+            lines.append('    ' * k + 'try:')
+        lines.append('    ' * d + 'raise KeyError(0)')
+        for k in range(d - 1, -1, -1):
+            ind = '    ' * k
+            lines += [ind + 'except KeyError as e:', ind + '    n[0] += 1', ind + ('    raise' if k else '    pass'), ind + 'finally:', ind + '    n[0] += 10']
+        out.append({'id': 'nest-try-except-finally-%d' % d, 'src': pre + 'def f():\n' + ''.join('    ' + l + '\n' for l in lines) + '    print(n[0])\nf()\n', 'family': 'nesting', 'label': 'try-except-finally depth %d' % d})
+    return out
+
+
+def directed_programs(tier, r):
+    out = nesting_programs(tier)
     combos = [(sl % v, a) for sl in HOSTILE_SLOTS for v in HOSTILE_VALUES for a in HOSTILE_ACTIONS] + [(d, a) for d in HOSTILE_DELS for a in HOSTILE_ACTIONS]
     if tier == 'quick':
         # every (slot, value) and every (slot, action) pair at least once
@@ -362,6 +410,8 @@ def directed_programs(tier, r):
     for i, (slot, act) in enumerate(combos):
         out.append({'id': 'h%d' % i, 'src': HOSTILE_TMPL % {'slot': slot, 'action': act}, 'family': 'hostile-hook', 'label': '%s / %s' % (slot, act.split('\n')[0])})
     for k, src in RECURSION_PROGRAMS.items():
+        if tier == 'quick' and k.startswith('self-') and k not in ('self-list-repr', 'self-list-eq'):
+            continue          # each of these aborts after growing a 1 GB stack (known finding): two of them in quick, all in thorough
         out.append({'id': 'rec-' + k, 'src': src, 'family': 'recursion', 'label': k})
     return out
 
@@ -496,7 +546,7 @@ def run(tier, rep):
         if g.get('panic') or g.get('crash') or g.get('harness_panic'):
             msg = str(g.get('panic') or g.get('harness_panic') or (re.search(r'fatal error: ([^\n]*)', g.get('log_tail', '')) or [None, 'abort'])[1])
             if dm:
-                rep.violation('C10|directed|%s|%s|panic:%s' % (dm['family'], dm['label'] if dm['family'] == 'recursion' else dm['label'].split(' = ')[0].split('(')[0], normmsg(msg)),
+                rep.violation('C10|directed|%s|%s|panic:%s' % (dm['family'], dm['label'] if dm['family'] in ('recursion', 'nesting') else dm['label'].split(' = ')[0].split('(')[0], normmsg(msg)),
                               {'case': {'id': p['id'], 'src': p['src']}, 'family': dm['family'], 'label': dm['label'], 'got': {k: common.short(v, 1500) for k, v in g.items()}})
             elif rm:
                 rep.violation('C10|reentrant|op=%s|panic:%s' % (rm['reop'], normmsg(msg)), {'case': p, 'operation': rm['reop'], 'callback_action': rm['react'], 'trigger_call': rm['trig'], 'burst': rm['burst'],
@@ -506,7 +556,7 @@ def run(tier, rep):
     rep.nontrivial = nontriv
     rep.samples = [{'kind': c['kind'], 'callable': sig_target(c), 'receiver': c.get('recv'), 'args': (expand(c) or [[]])[min(3, len(expand(c)) - 1)], 'kw': c.get('kw')} for c in C[:6]]
     rep.rule = ('every callable in builtins (%d) and in the attribute table of the type of every universe value (bound to a receiver and unbound), every unary/binary/ternary operator entry point of the py package and %d source snippets compiled and run by the VM, '
-                'x all argument tuples of arity 0-2 over a universe of %d values (huge values only sampled in quick) and arity 3 over a %d-value sub-universe, plus keyword forms; plus generated programs (program generator; full-grammar modules of the C06 generator over a universal object); plus re-entrant callback programs: %d container operations x %d mutations of the container performed by the callback (key function, rich comparison, __hash__, __index__, __iter__, __repr__, feeding generator) x trigger position; plus directed programs: interpreter-visible hooks (sys.path, sys.modules, sys.stdout, builtins.__import__, __build_class__, print, len, ...) rebound to values of the wrong kind or deleted x the actions that consult them, and unbounded / very deep recursion through every route (function, method, generator, map, sort key, __repr__, __getattr__, self-containing and deeply nested containers, deeply nested source text), one process each; '
+                'x all argument tuples of arity 0-2 over a universe of %d values (huge values only sampled in quick) and arity 3 over a %d-value sub-universe, plus keyword forms; plus generated programs (program generator; full-grammar modules of the C06 generator over a universal object); plus re-entrant callback programs: %d container operations x %d mutations of the container performed by the callback (key function, rich comparison, __hash__, __index__, __iter__, __repr__, feeding generator) x trigger position; plus directed programs: interpreter-visible hooks (sys.path, sys.modules, sys.stdout, builtins.__import__, __build_class__, print, len, ...) rebound to values of the wrong kind or deleted x the actions that consult them, blocks of every kind nested to depth 5..40 (100 in thorough) and executed (incl. handlers entered inside handlers), and unbounded / very deep recursion through every route (function, method, generator, map, sort key, __repr__, __getattr__, self-containing and deeply nested containers, deeply nested source text), one process each; '
                 'non-trivial = distinct (callable, outcome class) pairs observed' % (len(L['builtins']), len([s for s in L['snippets'] if s]), len(L['universe']), 14, len(RE_OPS), len(RE_ACTIONS)))
     rep.extra = {'calls': ncalls, 'batches': len(C), 'batches_redone': len(redo), 'outcome_classes': dict(sorted(outcomes.items(), key=lambda kv: -kv[1])[:25]), 'programs': len(progs), 'reentrant_programs': len(reprogs), 'reentrant_outcomes': re_out, 'directed_programs': len(dprogs), 'directed_outcomes': d_out, 'universe': L['universe']}
     rep.assumptions = ['pure CPU time (e.g. sum(range(2**62))) is inconclusive; process aborts and Go panics are violations', 'workers run with GOMEMLIMIT=3GiB; cwd is a scratch directory']
